@@ -16,7 +16,7 @@ pub fn prop() -> Prop {
   Prop {
     id: "C19",
     rule: "case = (1..4 tasks handed to the scheduler at t=0 or later: one-shot (OnceTask, NormalReturn), subscribing one-shot (OnceTask, SubscribeReturn of a probe subscription), repeating (RepeatTask with period 1..3 that declines after k runs), future-driven (FutureTask over a future that waits on the clock); delay none / 0 / 1 / 3 ticks; history of <= 10 steps: advance the clock, run the executor, run the i-th ready task, cancel handle i (unsubscribe), sample is_closed() of handle i, schedule the next task; executor FIFO-prompt, FIFO-late or any-ready-task-next). \
-           Oracle: a one-shot body runs at most once and, once everything due has been run, exactly once unless cancelled before; never before (time it was scheduled + delay); a repeating task's sequence numbers are 0,1,2,... one period apart at least, and it stops for good when it declines or is cancelled; after unsubscribe() returned the body never starts; a subscribing task cancelled after it ran has its product unsubscribed exactly once, cancelled before it ran never creates one; once is_closed() returned true the body does not run later. Non-trivial: a cancel between scheduling and completion, or >= 2 tasks ready at once. Distinct by hash(case). \
+           Oracle: a one-shot body runs at most once and, once everything due has been run, exactly once unless cancelled before; never before (time it was scheduled + delay); a repeating task's sequence numbers are 0,1,2,... one period apart at least, and it stops for good when it declines or is cancelled; after unsubscribe() returned the body never starts; a subscribing task cancelled after it ran has its product unsubscribed exactly once, cancelled before it ran never creates one; once is_closed() returned true the body does not run later; the handle of a subscribing task that was never cancelled does not report closed while the subscription the task produced is open. Non-trivial: a cancel between scheduling and completion, or >= 2 tasks ready at once. Distinct by hash(case). \
            Part `threads` (engine T): a one-shot or subscribing task (delay none or 1 tick) is scheduled on a harness-driven multi-thread scheduler (VerifSpawner); a worker thread polls queued tasks / advances the clock while another thread calls unsubscribe() on the handle (or two threads on clones of a shared MutArc<Option<TaskHandle>> cell) and raises a flag when it has returned; the task body contains a yield point between an enter and a leave mark; schedule = <= 3 preemptions. Oracle: the body is not entered with the flag raised and is not inside (entered, not left) at the moment the flag is raised; the product of a subscribing task that ran is unsubscribed exactly once after a cancel.",
     assumptions: &["threads part: sequentially consistent interleavings at lock-acquisition granularity plus one yield inside the task body"],
     parts: vec![
